@@ -91,7 +91,16 @@ func (t *JitterTicker) schedule() {
 	if t.timer != nil {
 		t.timer.Stop()
 	}
-	next := t.d + time.Duration(rand.Int63n(int64(t.jitter*2))) - (t.jitter)
+	next := t.d
+	if t.jitter > 0 {
+		// Uniform in [-jitter, jitter), without computing jitter*2 (which overflows for very
+		// large jitter) and without calling rand.Int63n(0) (which panics) for jitter == 0.
+		offset := time.Duration(rand.Int63n(int64(t.jitter)))
+		if rand.Intn(2) == 0 {
+			offset = -offset - 1
+		}
+		next += offset
+	}
 
 	// To prevent a latent goroutine already spawned but not yet running the below function from
 	// delivering a tick after Stop/Reset.
